@@ -234,11 +234,16 @@ func runMonitorWL(e *Env) {
 			return
 		}
 		mgr = m
+		slowConsumer := wl.Choose(3) == 2 // the events handler is busy: senders queue up on the capacity-1 channel
 		simrt.GoNamed("consumer", func() {
 			for {
 				select {
 				case ev := <-m.Ch():
 					simrt.Yield("consumer")
+					if slowConsumer {
+						simrt.Sleep(time.Duration(1+wl.Choose(3)) * 10 * time.Millisecond)
+						simrt.Count("probe:slow-consumer-receive")
+					}
 					for i, o := range ev.Objects {
 						k, rv := keyOf(o)
 						t := ""
@@ -268,8 +273,8 @@ func runMonitorWL(e *Env) {
 			n := 3 + wl.Choose(7)
 			for i := 0; i < n; i++ {
 				simrt.Yield("mut")
-				if wl.Bias(1, 4) {
-					simrt.Sleep(time.Duration(1+wl.Choose(4)) * 30 * time.Millisecond)
+				if wl.Bias(1, 3) {
+					simrt.Sleep(time.Duration(1+wl.Choose(6)) * 20 * time.Millisecond)
 				}
 				switch op := wl.Choose(12); {
 				case op == 11 && nsbLater == 1 && api.Get(gvrNS, "", "nsb") == nil:
@@ -308,8 +313,8 @@ func runMonitorWL(e *Env) {
 				view = v
 				simrt.Logf("view %v", sortedKeys(v.Objs))
 				simrt.Yield("sync")
-				if wl.Choose(2) == 1 {
-					simrt.Sleep(time.Duration(1+wl.Choose(4)) * 25 * time.Millisecond) // the Synchronization hook runs
+				if wl.Choose(3) != 0 {
+					simrt.Sleep(time.Duration(1+wl.Choose(8)) * 25 * time.Millisecond) // the Synchronization hook runs
 				}
 				m.GetMonitor("m1").EnableKubeEventCb()
 				unlockSeq = e.Seq()
@@ -561,6 +566,44 @@ func runMonitorWL(e *Env) {
 							sig = "second-reader-during-sync"
 						}
 						e.Viol(prop, "O3", sig, "view+events keeps %s which is not in the final cluster; %s", k, describe(k))
+					}
+				}
+			}
+		}
+		// T3 (C08): suppressed changes still update what snapshots show - at the end the snapshot holds,
+		// for every object, the last state its informer was shown
+		if immediate && mgr != nil && mgr.GetMonitor("m1") != nil {
+			want := map[string]shownRec{}
+			for _, r := range ris {
+				_, last := refEmissions(r.Shown, effEvents, proj)
+				for k, v := range last {
+					want[k] = v
+				}
+			}
+			gotSnap := map[string]kemtypes.ObjectAndFilterResult{}
+			for _, o := range mgr.GetMonitor("m1").Snapshot() {
+				k, _ := keyOf(o)
+				gotSnap[k] = o
+			}
+			for k, w := range want {
+				g, ok := gotSnap[k]
+				switch {
+				case !ok:
+					e.Viol(prop, "T3", "snapshot-misses-object", "snapshot lacks %s which the informer was last shown at @%d", k, w.RV)
+				case keepFull && g.Object != nil && rvOf(g.Object) != w.RV:
+					e.Viol(prop, "T3", "snapshot-stale-after-suppressed-change", "snapshot shows %s@%d, the informer was last shown @%d (a change outside the projection must still update the snapshot)", k, rvOf(g.Object), w.RV)
+				}
+			}
+			for k := range gotSnap {
+				if _, ok := want[k]; !ok {
+					onlyListed := len(shownBy[k]) > 0
+					for _, sh := range shownBy[k] {
+						if sh.Type != "List" {
+							onlyListed = false
+						}
+					}
+					if !onlyListed { // the two-list gap is reported under C01/C02
+						e.Viol(prop, "T3", "snapshot-keeps-deleted-object", "snapshot keeps %s which the informer was shown as deleted", k)
 					}
 				}
 			}
